@@ -23,6 +23,9 @@ T = {
  'C36-s1': ('C36', 'array section whose upper bound or stride contains a subscripted array (a(lo(j):hi(j))): stop/step keep the one-based inner subscript', 'missed (section bounds had to be concrete); caught after input index arrays with fixed values were added (section-bounds/stride/rhs-bounds-from-index-arrays: IndexError found by the solver path, confirmed by CPython)', 'caught-after-strengthening'),
  'C17-s1': ('C17', 'declaration whose initial value references other symbols (nn = 2*n0 + 1) without kind: the re-scoped initial expression is dropped, the clone keeps symbols attached to the original', 'missed; caught after clone-symbols-scoped-through-clone (structural) and retype-original-parameters-then-inline-clone (solver + gfortran replay: -1.5 vs -13.0) cases', 'caught-after-strengthening'),
  'C16-s1': ('C16', 'pragma attached to a loop / call inside an ELSE or ELSE IF branch: the detacher skips else bodies', 'missed (corpus had no pragmas, pragmas had no observable); caught after pragma annotations became part of the observable trace (Interp.trace_pragmas, position-indexed trace equivalence, pragma-as-print gfortran replay) and 9 pragma-rich templates were added (6 violations)', 'caught-after-strengthening'),
+ 'C03-s1': ('C03', 'two modifications in sequence: a pass that marks a Loop / Conditional INVALID_CHILDREN (body edit), then a substitution that changes the header expressions of the same node', 'missed (single edits only); caught after edit sequences (body statement then loop bounds / IF conditions, both orders) were added: 93 violations', 'caught-after-strengthening'),
+ 'C01-s1': ('C01', 'REAL / INT conversion with the kind given positionally (real(n, dp)): the kind is dropped by the frontend', 'missed (both sides of the round-trip obligation are parsed by the same frontend and reals are exact); caught after every self-validation input is also replayed end to end with exact output comparison (gfortran(text) vs gfortran(fgen(parse(text)))) and positional-kind casts were added to the corpus', 'caught-after-strengthening'),
+ 'C18-s1': ('C18', 'symbol imported via USE from a module whose definition is known (type.module set): the link is dropped by SymbolAttributes.__getstate__', 'missed (behaviour unchanged); caught after the attribute-by-attribute type fingerprint comparison of original and unpickled symbol tables (same-types cases)', 'caught-after-strengthening'),
  'C37-s1': ('C37', 'kernel temporary declared with upper-case letters, written before and read after a nested kernel call (vector pipelines)', 'missed; caught after the temp-across-nested-call call tree and upper-case spelling variants were added', 'caught-after-strengthening'),
 }
 for name, (prop, needs, verdict, status) in T.items():
